@@ -1,5 +1,6 @@
 // ===== C02 prelude =====
 pub type NonZeroU32 = u32;   // carried around only
+pub fn vnonzero_new(x: u32) -> (r: Option<u32>) ensures r == (if x != 0 { Some(x) } else { None::<u32> }), { if x != 0 { Some(x) } else { None } }
 // smallvec::SmallVec as a sequence (ASSUMED contract of append / smallvec!)
 pub struct SmallVec<T> { pub v: Vec<T> }
 impl<T> SmallVec<T> {
@@ -23,15 +24,31 @@ pub struct IndexBlob { pub tpe: BlobType, pub id: BlobId, pub location: BlobLoca
 pub struct StatusSet { pub _opaque: u64 }
 
 pub struct PruneStats { pub _opaque: u64 }
-// "mark time + keep_delete <= now": `self.time.saturating_sub(keep_delete).timestamp() >= t` (jiff arithmetic, uninterpreted)
-pub uninterp spec fn delete_due(limit: Timestamp, t: Timestamp) -> bool;
+// THE keep-delete rule of the statement: a pack marked at time t may be removed once keep_delete has passed since then:
+// t + keep_delete <= now.  Time is modelled as mathematical seconds (jiff's Zoned / SignedDuration / Timestamp: their
+// arithmetic is assumed exact -- the saturation of saturating_sub/add at the ends of jiff's range is not reached)
+pub open spec fn delete_due(now: ZonedT, keep_delete: DurationT, t: Timestamp) -> bool { t.t + keep_delete.d <= now.t }
+#[derive(Clone, Copy)]
+pub struct ZonedT { pub t: int }
+#[derive(Clone, Copy)]
+pub struct DurationT { pub d: int }
+pub struct TsT { pub t: int }
+impl ZonedT {
+    #[verifier::external_body]
+    pub fn saturating_sub(&self, d: DurationT) -> (r: ZonedT) ensures r.t == self.t - d.d, { unimplemented!() }
+    #[verifier::external_body]
+    pub fn saturating_add(&self, d: DurationT) -> (r: ZonedT) ensures r.t == self.t + d.d, { unimplemented!() }
+    #[verifier::external_body]
+    pub fn timestamp(&self) -> (r: TsT) ensures r.t == self.t, { unimplemented!() }
+}
+// `a >= b` on jiff Timestamps
 #[verifier::external_body]
-pub fn vdelete_due(limit: &Timestamp, t: &Timestamp) -> (r: bool) ensures r == delete_due(*limit, *t), { unimplemented!() }
+pub fn vts_ge(a: TsT, b: Timestamp) -> (r: bool) ensures r == (a.t >= b.t), { unimplemented!() }
 
 pub struct VPlan {
     pub repack_candidates: Vec<(PackInfo, StatusSet, RepackReason, usize, usize)>,
     pub stats: PruneStats,
-    pub delete_limit: Timestamp,
+    pub time: ZonedT,
 }
 
 // ---- check_existing_packs: which packs may "settle" a used blob ----
